@@ -39,7 +39,8 @@ def reserve_arg_names(a: ast.AST):
         name = (
             node.id if isinstance(node, ast.Name) else node.arg if isinstance(node, ast.arg) else ""
         )
-        if re.fullmatch("arg_[0-9]+", name):
+        # (the counter never gets anywhere near 18 digits: a longer number cannot collide)
+        if re.fullmatch("arg_[0-9]{1,18}", name):
             argument_var_counter = max(argument_var_counter, int(name[4:]) + 1)
 
 
